@@ -14,7 +14,8 @@ def run(prop, tier, name):
     open(p, 'w').write(src.replace(old, new))
     t0 = time.time()
     try:
-        r = subprocess.run([os.path.join(V, 'bin/vcheck'), prop, tier], capture_output=True, text=True)
+        r = subprocess.run([os.path.join(V, 'bin/vcheck'), prop, tier], capture_output=True, text=True,
+                           env=dict(os.environ, VFW_EVIDENCE_DIR=os.path.join(V, '.work', 'evidence_scratch')))
     finally:
         subprocess.run(['git', '-C', '/repo', 'checkout', '--', '.'])
     viol = [l for l in r.stdout.splitlines() if l.startswith('VIOLATION')]
